@@ -519,7 +519,8 @@ class Respondent(httping.Parsent):
                            httping.FOUND,
                            httping.SEE_OTHER,
                            httping.TEMPORARY_REDIRECT):
-            self.redirectant = True
+            if (self.headers.get('location') or '').strip():  # nowhere to go otherwise
+                self.redirectant = True
 
         self.headed = True
         yield True
@@ -964,9 +965,12 @@ class Patron(object):
                 location = sep.join([path, query])
             else:
                 location = path
-            splits = urlsplit(location)
-            hostname = splits.hostname
-            port = splits.port
+            try:
+                splits = urlsplit(location)
+                hostname = splits.hostname
+                port = splits.port  # raises ValueError if not an integer in range
+            except ValueError as ex:
+                raise httping.InvalidURL("Invalid redirect location '{0}': {1}".format(location, ex))
             scheme = splits.scheme
             if hostname is None:  # relative location so same scheme host and port
                 hostname = self.requester.hostname
@@ -1104,10 +1108,18 @@ class Patron(object):
                                       ('errored', self.respondent.errored),
                                       ('error', self.respondent.error),
                                      ])
+                    redirected = False
                     if self.respondent.redirectable and self.respondent.redirectant:
                         self.redirects.append(copy.copy(response))
-                        self.redirect()
-                    else:
+                        try:
+                            self.redirect()
+                            redirected = True
+                        except httping.InvalidURL as ex:  # deliver as errored final response
+                            self.redirects.pop()
+                            self.respondent.redirectant = False
+                            response['errored'] = True
+                            response['error'] = str(ex)
+                    if not redirected:
                         if self.redirects:
                             response['redirects'] = copy.copy(self.redirects)
                         self.redirects = []
